@@ -158,7 +158,8 @@ type fault struct {
 var faultClasses = []string{"unknown-field", "unknown-fragment", "unknown-argument", "unknown-type-condition", "impossible-spread",
 	"selection-on-leaf", "undefined-variable", "unused-variable", "variable-type-mismatch", "unused-fragment",
 	"duplicate-operation", "anonymous-operation", "unknown-variable-type", "missing-selection",
-	"keyword-variable", "bogus-directive-argument", "omitempty-on-field", "keyword-operation-name"}
+	"keyword-variable", "bogus-directive-argument", "omitempty-on-field", "keyword-operation-name",
+	"malformed-directive", "directive-wrong-value-type"}
 
 // insertion points: indices of lines (within Text) that end with "{" (a selection set opens)
 func openLines(text string) []int {
@@ -330,6 +331,22 @@ func injectFault(defs []gen.Def, class string, objectTypes []string, r *proto.Rn
 		ols := openLines(d.Text)
 		at := proto.Pick(r, ols)
 		d.Text = insertAfter(insertAfter(d.Text, at, "zzAlias: __typename"), at, "# @genqlient(zzzbogus: true)")
+		out[di] = d
+		f.Def, f.Line, f.AltLine = di, commentLines(d)+at+3, commentLines(d)+at+2
+		f.Validation = false
+	case "malformed-directive", "directive-wrong-value-type":
+		// a `# @genqlient(...)` comment that does not parse (or whose argument has the wrong kind of value): the
+		// diagnostic must still carry the file and the line of the comment or of the node it is attached to
+		di := pickDef(anyDef)
+		d := out[di]
+		ols := openLines(d.Text)
+		at := proto.Pick(r, ols)
+		txt := proto.Pick(r, []string{"# @genqlient(pointer: )", "# @genqlient(pointer true)", "# @genqlient(pointer: true", "# @genqlient(typename: \"x)",
+			"# @genqlient(pointer: true,, omitempty: true)", "# @genqlient(: true)", "# @genqlient(pointer: [)"})
+		if class == "directive-wrong-value-type" {
+			txt = proto.Pick(r, []string{"# @genqlient(pointer: \"yes\")", "# @genqlient(typename: true)", "# @genqlient(pointer: 1)", "# @genqlient(bind: 3)", "# @genqlient(pointer: null)"})
+		}
+		d.Text = insertAfter(insertAfter(d.Text, at, "zzAlias: __typename"), at, txt)
 		out[di] = d
 		f.Def, f.Line, f.AltLine = di, commentLines(d)+at+3, commentLines(d)+at+2
 		f.Validation = false
